@@ -16,6 +16,8 @@ for p in ["C%02d" % i for i in range(1, 21)]:
         JOBS.append((p, k + 9, "/tmp/seed8-%s/%d" % (p, k), "/tmp/confirm8/%s-%d.json" % (p, k), "/tmp/seedrun8/%s-%d.txt" % (p, k), "round 5: asked for optimisations gone wrong - fast paths, early exits, skipped work, in-place reuse, cheaper special-case routines, dropped normalisation or guards \"the caller already did\""))
     for k in (1, 2):
         JOBS.append((p, k + 11, "/tmp/seed10-%s/%d" % (p, k), "/tmp/confirm10/%s-%d.json" % (p, k), "/tmp/seedrun10/%s-%d.txt" % (p, k), "round 6: free choice of defect again (as round 1), on the final machinery"))
+    for k in (1, 2):
+        JOBS.append((p, k + 13, "/tmp/seed12-%s/%d" % (p, k), "/tmp/confirm12/%s-%d.json" % (p, k), "/tmp/seedrun12/%s-%d.txt" % (p, k), "round 7: free choice once more, after the corrections of rounds 5-6"))
 for (p, k, src, conf, run, rnd) in JOBS:
     if True:
         if not (os.path.exists(src + "/patch.diff") and os.path.exists(conf)):
